@@ -953,14 +953,14 @@ def correspondence_b(ctx):
     corr_suite(ctx, "phase_encoder", cases)
     # -- hyperspherical binary encoder, real and complex data
     cases = []
-    hmax = 8 if ctx.thorough else 7
+    hmax = 10 if ctx.thorough else 9
     for n in range(1, hmax + 1):
         for cplx in (0, 1):
             x = rand_data(rng, 2**n, cplx)
             cases.append((f"HS {n} {cplx}", real(lambda: bq_text(E.binary_encoder(x, "hyperspherical").queue)),
                           f"binary_encoder(<{2**n} {'complex' if cplx else 'real'}s>, 'hyperspherical')"))
     ctx.sample({"suite": "hyperspherical", "line": cases[4][0], "queue": cases[4][1]})
-    corr_suite(ctx, "hyperspherical", cases)
+    extra = sorted({int(b[0].split()[1]) for b in corr_suite(ctx, "hyperspherical", cases)})
     # -- Hopf binary encoder
     cases = []
     for n in range(1, hmax + 1):
@@ -983,6 +983,7 @@ def correspondence_b(ctx):
                               f"hamming_weight_encoder(<{d} {'complex' if cplx else 'real'}s>, {n}, {k}, full_hwp={bool(fh)}, optimize_controls={bool(oc)}, phase_correction={bool(pc)})"))
     ctx.sample({"suite": "hw_complex", "line": cases[6][0], "queue": cases[6][1]})
     corr_suite(ctx, "hw_encoder_b", cases)
+    return extra
 
 
 # -- hypotheses of T20_loading_chain / T20_hw_phase_correction / T20_loading_chain_amplitudes
@@ -1115,7 +1116,7 @@ def hopf_defect(x):
 '''
 
 
-def chain_relations(ctx):
+def chain_relations(ctx, extra=()):
     """the decidable hypotheses of T20_loading_chain (okAt / next / fixes), of
     T20_hw_phase_correction and the numerical ones of T20_loading_chain_amplitudes
     (r_k A_k = x_k, r_k B_k = r_(k+1): equivalently the chain amplitudes computed from the real
@@ -1127,7 +1128,7 @@ def chain_relations(ctx):
     bad = []
     walks = {}
 
-    def one(key, what, expr, setup, tol=1e-9):
+    def one(key, what, expr, setup, tol=1e-9, also=()):
         ctx.case((key, setup, expr))
         ctx.stat("chain:" + key.split(":")[0])
         env = dict(ev)
@@ -1142,16 +1143,17 @@ def chain_relations(ctx):
         if not good:
             bad.append((key, obs))
             py = PRE + CHAIN_SETUP + setup + f"\ntry:\n    r = {expr}\nexcept Exception as e:\n    print('raised', repr(e)); sys.exit(1)\nd = r[0] if isinstance(r, tuple) else r\nprint(d)\nsys.exit(0 if np.isfinite(d) and d <= {tol} else 1)\n"
-            ctx.fail(key, what, py, expected=f"defect <= {tol} and all chain hypotheses hold", observed=obs[:600], broken=["C20_chain_relations"])
+            ctx.fail(key, what, py, expected=f"defect <= {tol} and all chain hypotheses hold", observed=obs[:600], broken=["C20_chain_relations", *also])
         return res
 
-    nmax = 8 if ctx.thorough else 7
-    for n in range(1, nmax + 1):
-        for kind, x in data_vectors(rng, 2**n, True, 8 if n <= 5 else 4):
+    nmax = 9 if ctx.thorough else 8
+    # sizes on which the gate list differs from the model are searched for a failing input as well
+    for n in list(range(1, nmax + 1)) + [m for m in extra if m > nmax]:
+        for kind, x in data_vectors(rng, 2**n, True, 8 if n <= 5 else (4 if n <= 7 else 2)):
             cplx = np.iscomplexobj(x)
             cls = ("complex" if cplx else "real") + (":sparse" if (x == 0).any() else "")
             res = one(f"binary_encoder:hyperspherical:chain:{cls}", f"the gates of binary_encoder(x, 'hyperspherical') with x={x.tolist()[:16]} do not form a loading chain that writes x/|x|",
-                      "binary_defect(x, 'hyperspherical')", f"x = {arr_repr(x)}\n")
+                      "binary_defect(x, 'hyperspherical')", f"x = {arr_repr(x)}\n", also=("C20_corr_hyperspherical", "C20_corr_hs_walk"))
             if isinstance(res, tuple):
                 walks.setdefault(n, res[1])
     hw = 7 if ctx.thorough else 6
@@ -1163,12 +1165,12 @@ def chain_relations(ctx):
                 oc, pc = rng.random() < 0.5, rng.random() < 0.8
                 cls = ("complex" if cplx else "real") + (":sparse" if (x == 0).any() else "")
                 one(f"hamming_weight_encoder:chain:{cls}", f"the gates of hamming_weight_encoder(x, {n}, {k}, optimize_controls={oc}, phase_correction={pc}) with x={x.tolist()[:16]} do not form a loading chain that writes x/|x|",
-                    f"hw_defect(x, {n}, {k}, {oc}, {pc})", f"x = {arr_repr(x)}\n")
+                    f"hw_defect(x, {n}, {k}, {oc}, {pc})", f"x = {arr_repr(x)}\n", also=("C20_corr_hw_encoder_b",))
     for n in range(1, nmax + 1):
         for kind, x in data_vectors(rng, 2**n, False, 6 if n <= 5 else 3):
             cls = "zero-pair" if has_zero_pair(x) else ("sparse" if (x == 0).any() else "dense")
             one(f"binary_encoder:hopf:tree-relations:{cls}", f"angles of binary_encoder(x, 'hopf') with x={x.tolist()[:16]} violate the tree relations / heap order",
-                "hopf_defect(x)", f"x = {arr_repr(x)}\n")
+                "hopf_defect(x)", f"x = {arr_repr(x)}\n", also=("C20_corr_hopf",))
     ctx.ob("C20_chain_relations", not bad, "correspondence",
            f"{len(bad)} violations; first: {bad[0][0]}: {bad[0][1][:300]}" if bad else "")
     # -- the walk of the model vs the order in which the real circuits write the basis states
@@ -1185,8 +1187,8 @@ def run(ctx):
     correspondence(ctx)
     deepen(ctx)
     gate_semantics(ctx)
-    correspondence_b(ctx)
-    chain_relations(ctx)
+    extra = correspondence_b(ctx)
+    chain_relations(ctx, extra or ())
     search_qft(ctx)
     search_simple(ctx)
     search_unary(ctx)
@@ -1207,4 +1209,12 @@ def run(ctx):
         "search: QFT unitary vs DFT n<=8 with/without swaps, every encoder applied to |0..0> vs normalised target on the documented basis states with dense / negative / "
         "zero-containing / one-hot / complex data, documented errors")
     ctx.assumptions.append("gate classes act as documented (C01); arctan2 / acos angle formulas are tied to the data numerically (search, C20_tree_angle_relations), in the theorems the cos/sin of the RBS angles are abstract scalars constrained by r_k c_k = x_k, r_k s_k = r_(k+1) (diagonal) / r_e c_e = r_(2e+1), r_e s_e = r_(2e+2) (tree)")
-    ctx.assumptions.append("binary encoders (hyperspherical / Hopf: only the gate skeleton's Ehrlich walks are proved complete), complex-phase bookkeeping of the Hamming-weight encoder and phase_encoder are covered by search only")
+    ctx.notes.append(
+        "phase 2b: QV/Model/EncodingsB.lean (phase_encoder, hyperspherical and Hopf binary encoders, real/complex Hamming-weight encoder with RZ pairs and phase correction) vs the real queues, "
+        "verbatim with symbolic angle indices derived from the queue structure: phase_encoder n<=12,20,33 x RX/RY/RZ (+ parameter q == data[q]), binary_encoder hyperspherical n<=9 real and complex, Hopf n<=9, "
+        "hamming_weight_encoder n<=6 all k x optimize_controls x full_hwp x complex x phase_correction; gate matrices of the model (BG.sem, evaluated by the driver over Z with the scalars replaced by primes) vs the matrices of the real gate classes; "
+        "hypotheses of T20_loading_chain / T20_hw_phase_correction / T20_loading_chain_amplitudes on the real circuits (okAt / next / fixes of every step, RZ parameters exactly -phi,+phi, lambda == 0 inside the chain, "
+        "every basis state visited once, chain amplitudes computed from the real gate matrices == x/|x| to 1e-9) for binary_encoder n<=8 and hamming_weight_encoder n<=6 with dense / sparse / negative / complex data; "
+        "order of the written basis states vs hsWalk n<=8; Hopf: parameter e == 2 * tree angle e in heap order and tree relations to 1e-9, n<=8")
+    ctx.assumptions.append("complex data: P.p f * P.m f = 1 is the only relation assumed of the phase scalars; arg / mod-2pi bookkeeping of the phases is tied numerically (chain amplitudes from the real gate matrices vs x/|x|, 1e-9)")
+    ctx.assumptions.append("hamming_weight_encoder with optimize_controls=True: non-interference of the pruned controls is a decidable hypothesis of T20_loading_chain verified on the real circuits (n<=8), not proved for every n")
